@@ -54,6 +54,9 @@ theorem ObsFin_closed (C : Nat → Nat) : Closed (ObsFin C) where
   release := fun e i sp h hm => h
   crashed := fun e l h => h
   cancels := fun e l h => h
+  hookLate := fun e pid hook h => h
+  hookEarly := fun e id hook h => h
+  level := fun e l h => h
   obs := by
     intro e o ho h q
     simp only [addObs_obs]
@@ -83,7 +86,7 @@ theorem segTerm_obsfin (C : Nat → Nat) (now : Nat) (e1 : Eff) (pid : Nat) (p1 
     simp only [segTerm, retInd, Nat.one_mul]
     apply runHooks_closed (ObsFin_closed _)
     intro q
-    simp only [addObs_obs, setProc_obs, finCount, List.countP_cons, isFinish]
+    simp only [addObs_obs, clearLate_obs, setProc_obs, finCount, List.countP_cons, isFinish]
     have := h q
     unfold finCount at this
     rw [this]
@@ -297,10 +300,12 @@ theorem runHooks_specs_length (now : Nat) (hooks : List Nat) (e : Eff) :
 theorem ret_runs_hooks_once (now : Nat) (e : Eff) (pid tag : Nat) (p : Proc) (acts : List Act)
     (rest : List Seg) (hp : e.ps.procs[pid]? = some p) (hs : p.segs = ⟨acts, .ret⟩ :: rest) :
     (runSegment now e pid tag).ps.obs
-      = (p.hooks.map (fun h => Obs.hook now h)).reverse ++
+      = ((p.hooks ++ lateOf (acts.foldl (runAct now) (segStart now e pid tag p)).ps pid).map
+            (fun h => Obs.hook now h)).reverse ++
           Obs.finish now pid :: (acts.foldl (runAct now) (segStart now e pid tag p)).ps.obs ∧
     (runSegment now e pid tag).specs.length
-      = (acts.foldl (runAct now) (segStart now e pid tag p)).specs.length + p.hooks.length := by
+      = (acts.foldl (runAct now) (segStart now e pid tag p)).specs.length +
+          (p.hooks ++ lateOf (acts.foldl (runAct now) (segStart now e pid tag p)).ps pid).length := by
   rw [runSegment_eq now e pid tag p _ rest hp hs]
   unfold segBody
   simp only [segTerm]
